@@ -247,6 +247,41 @@ def validate(rep, prop, scenarios, scratch, label='impl', struct_owner=None):
     for sc in scenarios:
         raw = er.run_scenario(sc, watchdog=5.0)
         traces.append(er.to_records(sc, raw))
+    return judge(rep, prop, scenarios, traces, scratch, label, struct_owner)
+
+
+EXPLORE_QUICK = [
+    (2, [1, 2, 3], [(2, False), (3, True)]),
+    (2, [1, 2, 3], [(2, False), (3, False), (3, True)]),
+    (3, [1, 2], [(3, False), (2, True)]),
+]
+EXPLORE_THOROUGH = EXPLORE_QUICK + [
+    (3, [1, 2, 3], [(2, False), (3, True)]),
+    (3, [1, 2], [(3, False), (2, False), (3, True)]),
+    (2, [1, 2, 3, 5], [(4, False), (1, False), (6, True)]),
+    (3, [1, 2, 3], [(4, True), (3, False), (2, True)]),
+    (4, [1, 2], [(2, False), (3, True)]),
+]
+
+
+def explore(rep, prop, tier, scratch):
+    """Stateful exploration of the real scheduler (vv/systematic.py): every
+    reachable abstract scheduler state and every answer in it, within the bounds."""
+    from vv import systematic
+    total_states = 0
+    for n, ts, calls in (EXPLORE_QUICK if tier == 'quick' else EXPLORE_THOROUGH):
+        sc, traces, nstates, left = systematic.explore(
+            n, ts, [True, False], calls, max_states=300000, max_runs=600000)
+        total_states += nstates
+        rep.notes.setdefault('explored', []).append(
+            {'processes': n, 'timesteps': ts, 'calls': calls, 'abstract_states': nstates,
+             'runs': len(traces), 'unexpanded': left})
+        scs = [dict(sc, explored_run=i) for i in range(len(traces))]
+        judge(rep, prop, scs, traces, scratch, 'explore%d' % n, None)
+    rep.notes['explored_abstract_states'] = total_states
+
+
+def judge(rep, prop, scenarios, traces, scratch, label='impl', struct_owner=None):
     rej, res, diags = tlc.validate_traces(traces, scratch, label=label)
     rep.add_tlc('EngineTrace(%s)' % label, res)
     rep.traces += len(traces) - len([t for t in rej if t >= 0])
@@ -312,6 +347,8 @@ def check(prop, tier, seed):
     ]
     with tlc.Scratch() as scratch:
         model_check(rep, prop, tier, scratch)
+        if prop in ('C01', 'C02', 'C03', 'C04', 'C12'):
+            explore(rep, prop, tier, scratch)
         scs = gen_scenarios(tier, seed, want_steps=(prop == 'C05'))
         if prop == 'C05':
             from vv import props_steps
